@@ -414,6 +414,7 @@ def check_segment(seg, meta, st, fails, line):
                 # the step was scaled once more AFTER the last stepper call, so the returned
                 # `step` is shorter than the arc actually integrated into the returned `state`
                 st.inc("driver_state_step_mismatch")
+                st.inc("driver_state_step_mismatch_at_max_nsteps_%d" % o[11])
                 st.max("max_arc_over_reported_step", arc / sub if sub > 0 else float("inf"))
                 tainted = True
                 fails.append(("driver-nsteps-exhausted-state-step-mismatch",
@@ -505,10 +506,13 @@ def check_segment(seg, meta, st, fails, line):
         bn = norm(meta["B"])
         rad = abs(p0 / (C_R * meta["q"] * bn / TESLA)) if bn > 0 else float("inf")
         turns = distance / rad if rad > 0 else 0.0
-        # per accepted substep: truncation error <= eps_rel * h for position and eps_rel for the
-        # direction (which then moves the end point by eps_rel * remaining arc); at a boundary the
-        # point is taken on the chord (sagitta <= delta_chord + dchord_tol) within delta_intersection
-        tol = (eps_rel * distance * (2.0 + turns) + (delta_chord + DCHORD_TOL + 2 * delta_int)
+        # the driver accepts an integration step when its estimated relative error is below
+        # eps_rel in position (eps_rel * h) and in direction (eps_rel, which then displaces the end
+        # point by eps_rel * remaining arc): n_int accepted steps give at most
+        # eps_rel * distance * (1 + n_int); at a boundary the point is taken on the chord (sagitta
+        # <= delta_chord + dchord_tol) within delta_intersection
+        n_int = sum(1 for t, _ in ev if t == "st")     # >= number of accepted integration steps
+        tol = (eps_rel * distance * (2.0 + n_int) + (delta_chord + DCHORD_TOL + 2 * delta_int)
                + 1e-9 * (norm(g0[:3]) + distance))
         st.inc("helix_cases")
         st.max("max_helix_residual_over_tol", resid / tol)
@@ -518,3 +522,341 @@ def check_segment(seg, meta, st, fails, line):
                           {"residual": resid, "tol": tol, "distance": distance, "radius": rad,
                            "end": fin[0][:3], "helix": pt}))
     return None
+
+
+# ------------------------------------------------------------------------------- direct ops
+def drv_model_line(out, o):
+    """harness `drv` trace -> model `drvseq` input (answers only)"""
+    toks = out.split()
+    line = ["drvseq"] + opts_str(o, " ").split()
+    i = 0
+    while i < len(toks):
+        t = toks[i]
+        n = {"adv": 7, "st": 7, "=>": 18, "->": 7}.get(t)
+        if n is None:
+            return None
+        if t == "adv":
+            line += ["A"] + toks[i + 1:i + 8]
+        elif t == "=>":
+            line += ["S"] + toks[i + 1:i + 19]
+        i += 1 + n
+    return " ".join(line)
+
+
+def gen_state(rng, scale=5.0):
+    pos = [(rng.unit() * 2 - 1) * scale for _ in range(3)]
+    d = rnd_dir(rng)
+    p = log_uniform(rng, 1e-3, 1e4)
+    return pos, [c * p for c in d], p
+
+
+def direct_ops(ctx, exe, n):
+    """ops answered by both sides from the same inputs (no recorded answers): options
+    validation, defaults/constants, MagFieldEquation, ZHelixStepper closed form, and the
+    FieldDriver alone over recorded stepper answers.  Returns (lines_compared, diffs)."""
+    rng = ctx.rng
+    # Lorentz coefficient for each charge as the running code computes it
+    charges = [-1.0, 1.0, 2.0, -2.0]
+    _, co = vlib.run_lines([exe], ["coeff " + hx(q) for q in charges])
+    coeff = dict(zip(charges, co))
+    hl, ml = ["defaults"], ["defaults"]
+    for _ in range(n):
+        k = rng.below(4)
+        if k == 0:      # options: valid, and each clause violated / on its edge
+            o = gen_opts(rng)
+            j = rng.below(16)
+            edge = {0: (0, 0.0), 1: (1, 0.0), 2: (2, o[0]), 3: (3, 0.0), 4: (3, 1.0), 5: (4, 0.0),
+                    6: (6, 0.0), 7: (7, 0.0), 8: (8, 1.0), 9: (8, 0.0), 10: (9, 1.0), 11: (10, 1.0),
+                    12: (10, 0.0), 13: (11, 0), 14: (12, 0)}.get(j)
+            if edge:
+                o[edge[0]] = edge[1] if rng.chance(2, 3) else (
+                    -abs(o[edge[0]]) if edge[0] < 11 else -1)
+            if rng.chance(1, 20):
+                o[rng.below(11)] = float("nan")
+            line = "opts " + opts_str(o, " ")
+            hl.append(line)
+            ml.append(line)
+        elif k == 1:    # MagFieldEquation
+            pos, mom, _ = gen_state(rng)
+            q = rng.choice(charges)
+            b = [c * log_uniform(rng, 1e-2, 1e6) for c in rnd_dir(rng)]
+            hl.append("rhs %s %s %s" % (" ".join(map(hx, b)), hx(q), " ".join(map(hx, pos + mom))))
+            ml.append("rhsm %s %s %s" % (" ".join(map(hx, b)), coeff[q], " ".join(map(hx, pos + mom))))
+        elif k == 2:    # ZHelixStepper, arbitrary (also off-axis) inputs: model must agree with code
+            pos, mom, _ = gen_state(rng)
+            q = rng.choice(charges)
+            bz = log_uniform(rng, 1e-1, 1e6) * rng.choice([1.0, -1.0])
+            h = log_uniform(rng, 1e-6, 1e2)
+            if rng.chance(1, 6):
+                mom[1] = 0.0
+            hl.append("zh %s %s %s %s" % (hx(bz), hx(q), hx(h), " ".join(map(hx, pos + mom))))
+            ml.append("zhm %s %s %s %s" % (hx(bz), coeff[q], hx(h), " ".join(map(hx, pos + mom))))
+        else:           # FieldDriver alone, several advances on one driver object
+            pos, mom, p = gen_state(rng)
+            q = rng.choice(charges)
+            radius = log_uniform(rng, 1e-4, 1e3)
+            b = [c * p / (C_R * abs(q) * radius) * TESLA for c in rnd_dir(rng)]
+            o = gen_opts(rng)
+            steps = [radius * log_uniform(rng, 1e-4, 1e2) for _ in range(rng.range(1, 5))]
+            if rng.chance(1, 5):
+                steps[0] = o[0] * rng.unit()
+            stp = rng.choice(["dp", "rk4", "zh"])
+            hl.append("drv B=%s stp=%s q=%s pos=%s mom=%s opts=%s steps=%s chain=%s" % (
+                v3(b), stp, hx(q), v3(pos), v3(mom), opts_str(o), ",".join(map(hx, steps)),
+                rng.choice("01")))
+            ml.append(("drv", o))
+    hl += ["frob", "", "opts 1 2 3", "zh 0 0", "run geo=nope", "run geo=two-boxes"]
+    _, ho = vlib.run_lines([exe], hl)
+    ml += ["frob", "", "opts 1 2 3", "zhm 0 0", "prop 1 2", "drvseq 1"]
+    # the driver lines need the recorded stepper answers from the harness output
+    for i, m in enumerate(ml):
+        if isinstance(m, tuple):
+            ml[i] = drv_model_line(ho[i], m[1]) or "bad-op" if i < len(ho) else "bad-op"
+    _, mo = vlib.run_lines([vlib.model_exe("C08")], ml)
+    diffs = []
+    kinds = {}
+    for i, l in enumerate(hl):
+        a = ho[i] if i < len(ho) else "<missing>"
+        b = mo[i] if i < len(mo) else "<missing>"
+        k = (l.split() or ["empty"])[0]
+        kinds[k] = kinds.get(k, 0) + 1
+        if nan_norm(a) != nan_norm(b):
+            diffs.append({"op": l[:600], "impl": a[:300], "model": b[:300],
+                          "model_op": ml[i][:300]})
+    return len(hl), diffs, kinds, coeff
+
+
+ZH_WITNESSES = [
+    # key, what, (bz[T], particle, E[MeV]), start (in units of the gyroradius R), direction, arc/R
+    ("zhelix-off-axis",
+     "ZHelixStepper rotates the position about the ORIGIN instead of the centre of gyration: "
+     "off-axis start points leave the analytic helix",
+     (1.0, "e-", 10.0), [2.0, 0.0, 0.0], [0.0, 1.0, 0.0], math.pi / 2),
+    ("zhelix-negative-helicity-z",
+     "ZHelixStepper advances z by -step*dir_z for its 'negative helicity' (q*Bz > 0)",
+     (1.0, "e+", 10.0), [1.0, 0.0, 0.0], [0.0, -0.6, 0.8], 1.0),
+    ("zhelix-diry-zero",
+     "ZHelixStepper decides the sense of rotation from rhs.mom[0]/rhs.pos[1], which is 0/0 = NaN "
+     "when the y component of the direction is 0: a positive charge then turns the wrong way",
+     (1.0, "e+", 10.0), [0.0, 1.0, 0.0], [1.0, 0.0, 0.0], 1.0),
+]
+
+
+def zhelix_witnesses(ctx, exe):
+    """the hypotheses `zhelix_exact` needs are not documented preconditions: run the real
+    ZHelixStepper at the excluded points and compare with the analytic helix"""
+    lines, metas = [], []
+    for key, what, (bt, par, e), start, d, arc in ZH_WITNESSES:
+        p, q = momentum_of(par, e), PARTICLES[par][1]
+        rad = p / (C_R * abs(q) * bt)
+        rperp = rad * math.sqrt(d[0] ** 2 + d[1] ** 2)
+        pos = [c * rperp for c in start]
+        mom = [c * p for c in d]
+        h = arc * rad
+        lines.append("zh %s %s %s %s" % (hx(bt * TESLA), hx(float(q)), hx(h),
+                                         " ".join(map(hx, pos + mom))))
+        exp, expd = helix_point(pos, d, [0, 0, bt * TESLA], q, p, h)
+        metas.append((key, what, pos, d, h, exp, rperp))
+    _, out = vlib.run_lines([exe], lines)
+    found = []
+    for l, o, (key, what, pos, d, h, exp, rperp) in zip(lines, out, metas):
+        w = o.split()
+        if len(w) != 18:
+            continue
+        end = [fl(x) for x in w[6:9]]
+        err = dist(end, exp)
+        if err > 1e-6 * rperp:
+            found.append(key)
+            ctx.violation(key, "real ZHelixStepper: " + what,
+                          {"harness": "harness/fieldprop.cc", "op": l, "start": pos, "direction": d,
+                           "arc_length": h, "expected_end_on_analytic_helix": exp, "actual_end": end,
+                           "error_cm": err, "gyroradius_cm": rperp,
+                           "theorem": "Props/C08.lean zhelix_exact needs: axis through the origin, "
+                                      "dir_y != 0, positive helicity or dir_z = 0 "
+                                      "(zhelix_off_axis_wrong, zhelix_negative_helicity_wrong)"})
+    return found
+
+
+# ------------------------------------------------------------------------------- main
+def run(ctx):
+    quick = ctx.quick()
+    ps = common.proof_side(ctx, "C08")
+    broken = list(ps["broken"])
+    numself.run(ctx, 20000 if quick else 200000)
+    exe, log, _ = vlib.build_harness("fieldprop", HARNESS["fieldprop"])
+    if exe is None:
+        ctx.violation("harness-build", "harness/fieldprop.cc no longer builds against /repo",
+                      {"correspondence": "harness build", "log": log[-2000:]}, found_input=False)
+        ctx.coverage.update({"evaluations": 0, "distinct_nontrivial": 0})
+        return LEVEL
+    rng = ctx.rng
+    n_cases = (1000 if quick else 8000) * (2 if broken else 1)
+    cases = []
+    for i in range(n_cases):
+        gen = gen_tangent_case if i % 8 == 0 else gen_zhelix_case if i % 8 == 1 else gen_case
+        cases.append(gen(rng))
+    # corpus: past disagreements first
+    corpus = []
+    cdir = vlib.os.path.join(vlib.CORPUS, "C08")
+    if vlib.os.path.isdir(cdir):
+        for fn in sorted(vlib.os.listdir(cdir)):
+            if fn.endswith(".ops"):
+                corpus += [l.strip() for l in open(vlib.os.path.join(cdir, fn)) if l.startswith("run ")]
+    lines = corpus + [c[0] for c in cases]
+    metas = [meta_of_line(l) for l in corpus] + [c[1] for c in cases]
+    _, out = vlib.run_lines([exe], lines, timeout=3000)
+    st = Stats()
+    status = {}
+    mlines, expect, owner = [], [], []
+    fails = []           # (case index, key, what, info)
+    distinct = set()
+    branch_mix = {"accept": 0, "boundary_retry_or_shorten": 0, "commit_boundary": 0, "bump": 0}
+    for i, l in enumerate(lines):
+        o = out[i] if i < len(out) else "<missing>"
+        if not o.startswith("B "):
+            status[o[:24]] = status.get(o[:24], 0) + 1
+            continue
+        try:
+            segs = parse_trace(o)
+        except ValueError as e:
+            fails.append((i, "trace-parse", "harness trace cannot be parsed: %s" % e, {}))
+            continue
+        status["traced"] = status.get("traced", 0) + 1
+        for seg in segs:
+            f = []
+            check_segment(seg, metas[i], st, f, l)
+            fails += [(i,) + x for x in f]
+            if seg["exception"]:
+                continue
+            a, b, c, d = seg_lines(seg, metas[i]["opts"])
+            mlines += [a, c]
+            expect += [b, d]
+            owner += [i, i]
+            nev = sum(1 for t, _ in seg["events"] if t == "adv")
+            if nev > 1 or any(t == "->mtb" for t, _ in seg["events"]):
+                distinct.add(a)
+    diverged = []
+    if ps["model_ok"]:
+        _, mo = vlib.run_lines([vlib.model_exe("C08")], mlines, timeout=3000)
+        for k, e in enumerate(expect):
+            m = mo[k] if k < len(mo) else "<missing>"
+            if m != e and nan_norm(m) != nan_norm(e):
+                mt, et = m.split(), e.split()
+                j = next((j for j in range(min(len(mt), len(et))) if mt[j] != et[j]),
+                         min(len(mt), len(et)))
+                diverged.append({"run_op": lines[owner[k]], "replay": mlines[k].split()[0],
+                                 "first_differing_token": j, "model": " ".join(mt[max(0, j - 4):j + 4]),
+                                 "impl": " ".join(et[max(0, j - 4):j + 4])})
+        n_direct, ddiffs, dkinds, coeff = direct_ops(ctx, exe, 2000 if quick else 20000)
+        for dd in ddiffs[:50]:
+            diverged.append(dd)
+    else:
+        broken.append("model driver did not build")
+        n_direct, dkinds = 0, {}
+    if diverged:
+        broken.append(f"correspondence: model and implementation differ on {len(diverged)} replays/ops")
+    # ---- findings of the impl-side oracle, one violation per key with the first input as replay
+    seen = {}
+    for i, key, what, info in fails:
+        seen.setdefault(key, []).append((i, what, info))
+    for key, items in sorted(seen.items()):
+        i, what, info = items[0]
+        ctx.violation(key, "real FieldPropagator/FieldDriver: " + what,
+                      {"harness": "harness/fieldprop.cc", "op": lines[i], "info": info,
+                       "occurrences_this_run": len(items), "case": {k: v for k, v in metas[i].items()}})
+    zh_found = zhelix_witnesses(ctx, exe)
+    if broken and not ctx.violations:
+        ctx.violation("unproved", "; ".join(broken)[:600],
+                      {"no_longer_checks": broken, "diverging": diverged[:3]}, found_input=False)
+    elif broken:
+        ctx.notes.append("proof/correspondence broken: " + "; ".join(broken)[:600])
+        ctx.coverage["diverging_first"] = diverged[:3]
+    if not quick:
+        if ps["build"]["ok"]:
+            common.leanchecker(ctx, ["CelerVerif.Props.C08"])
+        san_run(ctx, lines[:400])
+    ctx.assumptions += [
+        "theorems are about the real-number reading of Model/FieldProp.lean; the same definitions "
+        "executed at Float reproduce every call, argument and result of the real FieldPropagator / "
+        "FieldDriver bit-for-bit on every trace of this run (driver, stepper and geometry ANSWERS are "
+        "replayed as oracle inputs)",
+        "driver contract 0 < substep <= requested and chord <= kappa*substep, geometry contract "
+        "boundary => 0 <= distance <= chord + delta_intersection: asserted on every recorded answer "
+        "(kappa = 1 + 4*epsilon_rel_max), not proved for RK4/Dormand-Prince or for ORANGE",
+        "step > 0 (CELER_EXPECT, unchecked in release) and validated FieldDriverOptions",
+        "NOT proved: truncation error of RK4 / Dormand-Prince against delta_chord / epsilon_rel_max "
+        "(numerical analysis) — carried only by the helix-residual oracle with tolerance "
+        "eps_rel_max*distance*(2+#integration steps) + delta_chord + dchord_tol + 2*delta_intersection",
+        "|p|: the propagator only reads the particle; the internal ODE momentum drifts by up to "
+        f"{st.mx.get('max_rel_momentum_change_per_substep_over_eps_rel_max', 0):.3g} x epsilon_rel_max "
+        "per driver answer in this run (measured, never fed back into the particle)",
+        "RZ-map field only through the bundled cms-tiny map on simple-cms; no Geant4/VecGeom geometries",
+    ]
+    n_seg = st.n.get("segments", 0)
+    ctx.coverage.update({
+        "explanation": "LEVEL other: the logical core (termination bound, distance range, boundary "
+                       "flag, looping flag, momentum handling, options validation, ZHelix closed form) "
+                       "is machine-checked at ℝ on a model tied bit-exactly to the code; the accuracy "
+                       "of the Runge-Kutta integrators versus the configured tolerances and the "
+                       "callee contracts are only tested (oracles on recorded answers).",
+        "evaluations": len(lines) + len(mlines) + n_direct, "distinct_nontrivial": len(distinct),
+        "rule": "one evaluation = one harness run line (up to 6 chained propagations), one replayed "
+                "propagation, one replayed driver sequence or one direct op; distinct_nontrivial = "
+                "distinct recorded propagations with more than one loop iteration or a boundary "
+                "landing",
+        "harness_status": dict(sorted(status.items())), "propagations": n_seg,
+        "stats": dict(sorted(st.n.items())),
+        "max": {k: float("%.6g" % v) for k, v in sorted(st.mx.items())},
+        "direct_op_mix": dict(sorted(dkinds.items())), "replays": len(mlines),
+        "diverging": len(diverged), "oracle_failures": {k: len(v) for k, v in seen.items()},
+        "zhelix_witnesses_failing": zh_found, "correspondence_broken": broken,
+        "samples": [lines[len(corpus)][:400], (mlines[0][:300] if mlines else ""),
+                    (expect[0][:300] if expect else "")],
+    })
+    return LEVEL
+
+
+def meta_of_line(line):
+    """metadata of a stored `run` line (corpus / replay)"""
+    kv = dict(w.split("=", 1) for w in line.split()[1:])
+    o = kv["opts"].split(",")
+    opts = [fl(x) for x in o[:11]] + [int(o[11]), int(o[12])]
+    par = kv["par"]
+    e = fl(kv["E"])
+    return {"geo": kv["geo"], "fld": kv["fld"], "B": [fl(x) for x in kv["B"].split(",")],
+            "stp": kv["stp"], "par": par, "E": e, "p": momentum_of(par, e), "q": PARTICLES[par][1],
+            "opts": opts, "steps": [fl(x) for x in kv["steps"].split(",")], "pre": kv.get("pre", "0")}
+
+
+def san_run(ctx, lines):
+    """thorough tier: the same header-only code under ASan/UBSan"""
+    exe, log, _ = vlib.build_harness("fieldprop", HARNESS["fieldprop"], san=True)
+    if exe is None:
+        ctx.notes.append("sanitizer build failed: " + log[-300:])
+        return
+    rc, out = vlib.sh([exe], input="\n".join(lines) + "\n", timeout=3000,
+                      env={"ASAN_OPTIONS": "detect_leaks=0", "VERIF_KEEP_STDERR": "1"})
+    ctx.coverage["sanitizer_cases"] = len(lines)
+    if rc != 0:
+        ctx.violation("sanitizer", "ASan/UBSan abort in FieldPropagator/FieldDriver harness",
+                      {"rc": rc, "log": out[-1500:]}, found_input=False)
+
+
+def replay(ctx, data):
+    exe, log, _ = vlib.build_harness("fieldprop", HARNESS["fieldprop"])
+    r = data["replay"]
+    if "op" in r:
+        _, o = vlib.run_lines([exe], [r["op"]])
+        print("op:", r["op"])
+        if o and o[0].startswith("B "):
+            st, f = Stats(), []
+            for seg in parse_trace(o[0]):
+                check_segment(seg, meta_of_line(r["op"]), st, f, r["op"])
+            print("oracle failures now:", sorted(set(x[0] for x in f)))
+            print("stats:", st.n, st.mx)
+        else:
+            print("impl now:", o)
+        print("recorded:", vlib.json.dumps(r.get("info", {}), indent=1)[:2000])
+    else:
+        print(vlib.json.dumps(r, indent=1))
+    return 0
